@@ -283,6 +283,8 @@ def variants(kind, tier):
         for nresp in (0, 1, 2):
             for fl in (None, 1):
                 out.append(("r%d%s" % (nresp, "-fl" if fl else ""), dict(nresp=nresp, fl=fl)))
+        # file names outside ASCII: lengths count encoded octets, not characters
+        out.append(("r1-utf8", dict(nresp=1, shape1=(2,), shape2=(1, 3), m=1)))
         if t:
             out += [("r1-names", dict(nresp=1, shape1=(1, 1), shape2=(2,), m=2)), ("r3-fl2", dict(nresp=3, fl=2)),
                     ("r2-snp", dict(nresp=2, shape1=(), shape2=(1,), m=1))]
